@@ -25,7 +25,7 @@ CHECKS = {
  "C01": (True,
   "LU: for every finite f32 2x2 input L is unit lower triangular, U upper triangular, P a permutation that picks the largest leading entry, multipliers <= 1; for every non-singular integer-lattice 2x2 / 3x3 matrix P*A = L*U, inverse and solve equal the exact rational solution. "
   "Cholesky: every symmetric 2x2 (any finite f64) with a diagonal entry <= -1 and every non-square input is rejected; for A = L0*L0^T from an integer factor the factor, U = L^T and the solve are recovered. QR: 1x1 at every binary scale 2.4e-7..1e12 and 2x1 lattice: Q orthonormal, Q*R = A, least-squares solve (2x2 thorough). "
-  "SVD of one column (1x1, 2x1; 3x1 thorough): s >= 0 equals the column norm, U, V orthonormal, U*s*V^T = A. QR below machine epsilon is a known finding (C01-qr-absolute-epsilon). SVD with >= 2 columns, shapes above 3x3 and accuracy on non-lattice data are outside.",
+  "SVD of one column (1x1, 2x1; 3x1 thorough): s >= 0 equals the column norm, U, V orthonormal, U*s*V^T = A; svd_solve returns the least-squares solution and, for a zero (rank-deficient) column, the minimum-norm solution 0. QR below machine epsilon is a known finding (C01-qr-absolute-epsilon). SVD with >= 2 columns, shapes above 3x3 and accuracy on non-lattice data are outside.",
   "Trusts Kani/CBMC incl. CBMC's f32 sqrt; hypot is stubbed by sqrt(x*x+y*y); error constructors are trapped (an unexpected Err is a violation); lattice domains make the real code's float arithmetic nearly exact so that small absolute tolerances are meaningful; nothing is claimed for SVD sweeps (>= 2 columns).",
   "DESIGN.md 6/C01"),
  "C04": (True,
@@ -58,7 +58,7 @@ CHECKS = {
   "DESIGN.md 6/C16"),
  "C07": (True,
   "Ridge regression with one feature (n = 2, 3; x, y on an integer lattice; alpha in {1/2, 1, 2}; no normalisation; Cholesky solver): CBMC proves through the real fit (transpose, matmul, cholesky_solve_mut) that the intercept is exactly 0 and w*(sum x^2 + alpha) = sum x*y, "
-  "i.e. the gradient of the stated objective vanishes, and that predict(X) = X*w + b row by row; invalid shapes (n <= p, |y| != n) are errors for ridge and OLS. Thorough tier: normalised ridge (stationarity with unpenalised intercept) and OLS p = 1 through QR (normal equations). p >= 2, solver agreement and non-lattice accuracy are outside.",
+  "i.e. the gradient of the stated objective vanishes - for the Cholesky and (n = 2) the SVD solver, which therefore agree - and that predict(X) = X*w + b row by row; invalid shapes (n <= p, |y| != n) are errors for ridge and OLS. Thorough tier: normalised ridge (stationarity with unpenalised intercept) and OLS p = 1 through QR (normal equations). p >= 2, solver agreement and non-lattice accuracy are outside.",
   "Trusts Kani/CBMC; error constructors trapped (an Err on valid input is a violation); hypot/powi stubbed; only p = 1 because a 2-column SVD/normalised 2x2 system does not finish; tolerances are absolute on lattice data.",
   "DESIGN.md 6/C07"),
  "C08": (True,
@@ -78,7 +78,7 @@ CHECKS = {
   "DESIGN.md 6/C12"),
  "C14": (True,
   "PCA on a single column (n = 2, 3; 4 thorough; integer lattice, non-constant): through the real fit (centring, one-column SVD) and transform CBMC proves that the component is +-1, the transformed training data equal +-(x - mean) and have zero mean, "
-  "the transform is row-wise (transforming a stack equals stacking the transforms) and asking for more components than columns is an error. This only guards the centring / projection bookkeeping: orthonormality, decorrelation, variance ordering and optimality for p >= 2 and all of truncated SVD need a multi-column SVD/EVD, which does not finish - outside the claim.",
+  "the transform is row-wise (transforming a stack equals stacking the transforms), in correlation mode (EVD path on the 1x1 matrix) the scores are the z-scores, and asking for more components than columns is an error. This only guards the centring / projection bookkeeping: orthonormality, decorrelation, variance ordering and optimality for p >= 2 and all of truncated SVD need a multi-column SVD/EVD, which does not finish - outside the claim.",
   "Trusts Kani/CBMC; hypot stubbed, error constructors trapped; p = 1 only.",
   "DESIGN.md 6/C14"),
  "C20": (True,
